@@ -207,6 +207,14 @@ def check(prop, tier, seed):
             if k in s0 and len(json.dumps(s0[k])) > 400:
                 s0[k] = str(s0[k])[:400] + '...'
         cov['samples'].append({'family': label, 'stimulus': s0})
+    if prop == 'C03':
+        # head-of-message clauses (POST, HTTP/2, path, content-type, te, status 200, exactly one grpc-status, no request
+        # trailers) on recorded RPCs of the generated client and server: Call.tla / Trace_Call.tla
+        from . import p_call, simple
+        cstims = simple.gen('call', seed, tier, tag)
+        cev, cpath = simple.run_lab('call', cstims, tag, 'calls', annotate=decomp.annotate)
+        simple.validate(prop, 'Trace_Call', verdict, cev, cpath, 'calls', cov, clause_filter=p_call.clause_filter('C03'), harness_clauses=p_call.HARNESS)
+        cov['samples'].append({'family': 'calls', 'stimulus': simple.sample_of(cstims)})
     ok_mc = [m for m in mc_stats if 'distinct' in m and not m.get('expected_violation_found')]
     cov['states'] = sum(m.get('distinct', 0) for m in ok_mc)
     cov['transitions'] = sum(m.get('generated', 0) for m in ok_mc)
